@@ -104,7 +104,7 @@ def run(tier):
         for d in doc["defs"]:
             cd = c[d["name"]]
             shadow = sum(1 for r in d["cfg_reports"] if r["id"] == "CS0001")
-            if d["lift_ok"] != cd["liftOk"] or d["named"] != cd["named"] or shadow != (cd["cfgRep"] if cd["liftOk"] else 0) or \
+            if d["lift_ok"] != cd["liftOk"] or d["named"] != cd["named"] or shadow != cd["cfgRep"] or \
                     (d["lift_ok"] and set(d["lookups"]) != set(cd["looks"])):
                 raise vlib.ToolError("rendered project does not have the abstract configuration's features: %s / %s" % (cd, d))
     # replay every schedule on the real runner (H4)
